@@ -163,6 +163,12 @@ class Checker(CommandMixin):
             k = e.get("kind")
             if k == "internal_error":
                 sig = None
+                if self._out_of_domain(ev):
+                    # a non-string identifier: dropping the connection is acceptable
+                    self.probes["zone:out-of-domain-bind-dropped"] += 1
+                    if e.get("conn") is not None:
+                        self._conn_dead(e["conn"], ev.wall)
+                    continue
                 self.probes["internal_errors"] += 1
                 self.v("C17", "no-internal-failure", ev,
                        "handler raised %s: %s at %s" % (e.get("type"), e.get("text"), e.get("where")), sig)
@@ -179,6 +185,15 @@ class Checker(CommandMixin):
             self.v("C09", "committed-before-frame", ev,
                    "frame %r to conn %s emitted while %s database had uncommitted changes (reader differs)"
                    % (c["frame"], c["conn"], c["db"]))
+
+    @staticmethod
+    def _out_of_domain(ev):
+        msgs = ev.sends if ev.sends is not None else ([ev.msg] if ev.msg is not None else [])
+        for m in msgs:
+            if isinstance(m, dict) and m.get("type") == "bind" and "appid" in m and "side" in m and \
+                    (not isinstance(m["appid"], str) or not isinstance(m["side"], str)):
+                return True
+        return False
 
     def _messages_monotonic(self, pre, post, ev, allowed_add=None):
         """C01 storage clause: message rows change only by an accepted add or
@@ -331,6 +346,8 @@ class Checker(CommandMixin):
             if len(subs) < len(msgs) and not died:
                 self.v("C17", "ack-first", ev, "batch of %d commands got %d acks" % (len(msgs), len(subs)))
         failed = [e for e in ev.errors if e.get("kind") == "internal_error" and e.get("conn") == ev.conn]
+        if failed and self._out_of_domain(ev):
+            return
         if not failed:
             self._acknowledged_effects_stored(ev, subs, msgs)
         for i, sub in enumerate(subs):
